@@ -23,7 +23,8 @@ PROP = dict(
     assumptions=["limits on the harness process: RLIMIT_AS 8 GiB, 5 s per call, overall timeout"],
 )
 
-THEOREMS = ["Wtf.C10." + t for t in ("fuzzy_target_nul_free", "buffer_cap_safe", "buffer_cap_exact", "nul_panics_matcher", "search_panic_only_from_matcher")]
+THEOREMS = ["Wtf.C10." + t for t in ("fuzzy_target_nul_free", "buffer_cap_safe", "buffer_cap_exact", "nul_panics_matcher", "search_panic_only_from_matcher")] + \
+    ["Wtf.C07.no_panic", "Wtf.C07.accepts_iff_subseq"]
 
 
 def _limits():
